@@ -51,7 +51,7 @@ def run(ctx: Ctx):
     ctx.floor("DU.no-partial-state", 60)
     ctx.floor("ORD.stack", 2)
     ctx.floor("ORD.generation", 5)
-    ctx.floor("ORD.phases", 3)
+    ctx.floor("ORD.phases", 2)
     ctx.not_decided += ["that each enter() rejects exactly the right situations (C02, C07, C10 decide the individual predicates)"]
 
 
